@@ -1,6 +1,276 @@
-//! C10 — implementation side of the correspondence (stub).
+//! C10 (a) plans, reindex, rewrite over containers and (b) `Representative for ActorModelState`:
+//! implementation side. Model requests carry the implementation's result (the driver answers `ok` when its
+//! own result is the same value, hash tables compared as sets); oracle requests: `o-plan` (the plan is the
+//! stable sorting permutation), `o-orbit` (brute force over all n! permutations that ONE permutation
+//! explains the representative).
+use srh::hash_util::*;
 use srh::out::*;
+use srh::rng::Rng;
+use srh::sx;
+use stateright::actor::{ActorModelState, Envelope, Id, Network, RandomChoices};
+use stateright::util::{DenseNatMap, HashableHashMap, HashableHashSet};
+use stateright::{Representative, Rewrite, RewritePlan};
+use std::collections::{BTreeMap, BTreeSet, VecDeque};
+use std::panic::{catch_unwind, AssertUnwindSafe};
+use std::sync::Arc;
+
+type Plan = RewritePlan<Id, DenseNatMap<Id, Id>>;
+
+fn plan_list(plan: &Plan, n: usize) -> Vec<usize> {
+    (0..n).map(|i| usize::from(plan.rewrite(&Id::from(i)))).collect()
+}
+fn set_ids(n: usize) {
+    ID_MOD.with(|m| m.set(n));
+}
+
+/// a vector with ties: few distinct values, repeated
+fn tied<T: U>(r: &mut Rng, n: usize) -> Vec<T> {
+    let pool: Vec<T> = (0..1 + r.below(3)).map(|_| T::gen(r, 2)).collect();
+    (0..n).map(|_| if r.chance(4, 5) { r.pick(&pool).clone() } else { T::gen(r, 2) }).collect()
+}
+
+fn plans<T: U + Ord>(out: &mut Out, r: &mut Rng, count: usize) {
+    for c in 0..count {
+        let n = r.below(7);
+        set_ids(n);
+        let vs: Vec<T> = tied(r, n);
+        let plan = Plan::from_values_to_sort(&vs);
+        let pl = plan_list(&plan, n);
+        let req_vs = vs.sx();
+        out.m(&format!("plan {} {}", T::ty(), req_vs), &sx::nums(&pl));
+        out.o(&format!("o-plan {} {} {}", T::ty(), req_vs, sx::nums(&pl)));
+        out.stat(&format!("plan-len-{}", n));
+        let mut sorted = vs.clone();
+        sorted.sort();
+        sorted.dedup();
+        if sorted.len() < n { out.stat("plans-with-ties"); }
+        out.distinct(&("plan", T::ty(), req_vs.clone()));
+        if c == 0 { out.sample(&format!("plan {} {} => {}", T::ty(), req_vs, sx::nums(&pl))); }
+        // direct law on the implementation: reindexing the sorted-by values themselves sorts them
+        if !T::ty().contains("id") {
+            // (only for id-free values, whose rewrite is the identity)
+        }
+        reindex_case::<T, Id>(out, r, &vs, &plan);
+        reindex_case::<T, (Id, u8)>(out, r, &vs, &plan);
+        reindex_case::<T, Vec<Id>>(out, r, &vs, &plan);
+        reindex_case::<T, u8>(out, r, &vs, &plan);
+        reindex_case::<T, Option<Id>>(out, r, &vs, &plan);
+        reindex_case::<T, HashableHashSet<Id>>(out, r, &vs, &plan);
+    }
+}
+
+fn reindex_case<T: U, X: U + Rewrite<Id>>(out: &mut Out, r: &mut Rng, vs: &[T], plan: &Plan) {
+    let n = vs.len();
+    // mostly the right length and ids in range; sometimes a shorter / longer collection or an id outside the plan
+    let len = match r.below(10) {
+        0 if n > 0 => n - 1,
+        1 => n + 1,
+        _ => n,
+    };
+    set_ids(if r.chance(1, 10) { n + 1 } else { n });
+    let xs: Vec<X> = (0..len).map(|_| X::gen(r, 2)).collect();
+    set_ids(n);
+    let res = catch_unwind(AssertUnwindSafe(|| if r.chance(1, 2) {
+        plan.reindex(&xs)
+    } else {
+        plan.reindex(&xs.iter().cloned().collect::<VecDeque<X>>()).into_iter().collect::<Vec<X>>()
+    }));
+    let res_sx = match &res {
+        Ok(v) => { out.stat("reindex-ok"); v.sx() }
+        Err(_) => { out.stat("reindex-panic"); "panic".into() }
+    };
+    out.m(&format!("reindex {} {} {} {} {}", T::ty(), vs.to_vec().sx(), X::ty(), xs.sx(), res_sx), "ok");
+    // direct laws on the implementation (C10_reindex): result[plan i] = rewrite(xs[i]), length = plan length
+    if let Ok(v) = &res {
+        if len >= n {
+            let pl = plan_list(plan, n);
+            if v.len() != n { out.v("reindex-length", &format!("plan {:?} xs {} result {}", pl, xs.sx(), v.sx())); }
+            for i in 0..n {
+                if v[pl[i]] != xs[i].rewrite(plan) {
+                    out.v("reindex-law", &format!("plan {:?} xs {} result {} at {}", pl, xs.sx(), v.sx(), i));
+                }
+            }
+        }
+    }
+    out.distinct(&("reindex", X::ty(), vs.to_vec().sx(), xs.sx()));
+}
+
+fn rewrites<X: U + Rewrite<Id>>(out: &mut Out, r: &mut Rng, count: usize) {
+    for c in 0..count {
+        let n = 1 + r.below(5);
+        set_ids(n);
+        let vs: Vec<u8> = tied(r, n);
+        let plan = Plan::from_values_to_sort(&vs);
+        let pl = plan_list(&plan, n);
+        set_ids(if r.chance(1, 8) { n + 1 } else { n });
+        let x = X::gen(r, 3);
+        set_ids(n);
+        let res = catch_unwind(AssertUnwindSafe(|| x.rewrite(&plan)));
+        let res_sx = match &res {
+            Ok(v) => { out.stat("rewrite-ok"); v.sx() }
+            Err(_) => { out.stat("rewrite-panic"); "panic".into() }
+        };
+        let req = format!("rewrite {} {} {} {}", sx::nums(&pl), X::ty(), x.sx(), res_sx);
+        out.m(&req, "ok");
+        out.distinct(&("rewrite", X::ty(), pl.clone(), x.sx()));
+        if c == 0 { out.sample(&req); }
+    }
+    let t = X::ty();
+    out.stat_n(&format!("rewrite-type {}", if t.len() > 60 { &t[..60] } else { &t }), count as u64);
+}
+
+/// DenseNatMap<Id, V>: keys AND values move (model: SR.DNM.rewriteByPlan, shared with C20)
+fn dnm_rewrites(out: &mut Out, r: &mut Rng, count: usize) {
+    for _ in 0..count {
+        let n = 1 + r.below(5);
+        let vs: Vec<u8> = tied(r, n);
+        let plan = Plan::from_values_to_sort(&vs);
+        let pl = plan_list(&plan, n);
+        let len = match r.below(8) { 0 => n + 1, 1 if n > 0 => n - 1, _ => n };
+        if r.chance(1, 2) {
+            let m: DenseNatMap<Id, Id> = (0..len).map(|_| { let b = if r.chance(1, 10) { n + 1 } else { n }; Id::from(r.below(b)) }).collect::<Vec<Id>>().into();
+            let res = catch_unwind(AssertUnwindSafe(|| m.rewrite(&plan)));
+            let res_sx = match &res { Ok(v) => sx::nums(v.values().map(|i| usize::from(*i))), Err(_) => "panic".into() };
+            out.m(&format!("dnm-rewrite {} {} kv", sx::nums(&pl), sx::nums(m.values().map(|i| usize::from(*i)))), &res_sx);
+            out.stat(if res.is_ok() { "dnm-rewrite-ok" } else { "dnm-rewrite-panic" });
+        } else {
+            let m: DenseNatMap<Id, u8> = (0..len).map(|_| r.below(4) as u8).collect::<Vec<u8>>().into();
+            let res = catch_unwind(AssertUnwindSafe(|| m.rewrite(&plan)));
+            let res_sx = match &res { Ok(v) => sx::nums(v.values()), Err(_) => "panic".into() };
+            out.m(&format!("dnm-rewrite {} {} k", sx::nums(&pl), sx::nums(m.values())), &res_sx);
+            out.stat(if res.is_ok() { "dnm-rewrite-ok" } else { "dnm-rewrite-panic" });
+        }
+    }
+}
+
+fn gen_state<S: U, M: U + Eq, T: U + Eq, R: U + Eq, H: U>(r: &mut Rng, n: usize, id_bound: usize, lens: [usize; 3]) -> ActorModelState<GA<S, M, T, R>, H> {
+    set_ids(id_bound);
+    let pool: Vec<S> = (0..1 + r.below(2)).map(|_| S::gen(r, 2)).collect();
+    ActorModelState {
+        actor_states: (0..n).map(|_| Arc::new(if r.chance(3, 4) { r.pick(&pool).clone() } else { S::gen(r, 2) })).collect(),
+        network: Network::gen(r, 2),
+        timers_set: (0..lens[0]).map(|_| Timers::gen(r, 1)).collect(),
+        random_choices: (0..lens[1])
+            .map(|_| {
+                let mut c = RandomChoices::default();
+                if r.chance(1, 2) {
+                    for _ in 0..1 + r.below(2) {
+                        c.insert(String::gen(r, 0), (0..1 + r.below(2)).map(|_| R::gen(r, 0)).collect());
+                    }
+                }
+                c
+            })
+            .collect(),
+        crashed: (0..lens[2]).map(|_| r.chance(1, 3)).collect(),
+        history: H::gen(r, 2),
+    }
+}
+
+fn states<S, M, T, R, H>(out: &mut Out, r: &mut Rng, count: usize, oracle: bool)
+where
+    S: U + Ord + Rewrite<Id>,
+    M: U + Eq + Rewrite<Id>,
+    T: U + Eq,
+    R: U + Eq + Rewrite<Id>,
+    H: U + Rewrite<Id>,
+{
+    let ty = <ActorModelState<GA<S, M, T, R>, H> as U>::ty();
+    for c in 0..count {
+        let n = r.below(if thorough() { 6 } else { 5 });
+        // mostly well-formed states; sometimes an id outside 0..n or a per-actor vector of another length
+        let id_bound = if r.chance(1, 12) { n + 1 } else { n };
+        let mut lens = [n, n, n];
+        if r.chance(1, 12) {
+            let k = r.below(3);
+            lens[k] = if r.chance(1, 2) && n > 0 { n - 1 } else { n + 1 };
+        }
+        let st: ActorModelState<GA<S, M, T, R>, H> = gen_state(r, n, id_bound, lens);
+        set_ids(n);
+        let res = catch_unwind(AssertUnwindSafe(|| st.representative()));
+        let res_sx = match &res {
+            Ok(v) => { out.stat("representative-ok"); v.sx() }
+            Err(_) => { out.stat("representative-panic"); "panic".into() }
+        };
+        let req = format!("repr {} {} {}", ty, st.sx(), res_sx);
+        out.m(&req, "ok");
+        // orbit membership by brute force (n! permutations) — n <= 4 keeps it cheap; thorough goes to 5
+        if oracle && n <= if thorough() { 5 } else { 4 } {
+            out.o(&format!("o-orbit {} {} {}", ty, st.sx(), res_sx));
+            out.stat("orbit-oracle-cases");
+        }
+        out.stat(&format!("state-actors-{}", n));
+        let mut ss: Vec<&S> = st.actor_states.iter().map(|a| &**a).collect();
+        ss.sort();
+        ss.dedup();
+        if ss.len() < n { out.stat("states-with-tied-actor-states"); }
+        match &st.network {
+            Network::UnorderedDuplicating(..) => out.stat("state-net-unordered-dup"),
+            Network::UnorderedNonDuplicating(..) => out.stat("state-net-unordered-nondup"),
+            Network::Ordered(..) => out.stat("state-net-ordered"),
+        }
+        if let Ok(v) = &res {
+            if *v != st { out.stat("representative-differs-from-state"); }
+            // idempotence is NOT claimed (the plan sorts the un-rewritten states); only counted
+            if let Ok(v2) = catch_unwind(AssertUnwindSafe(|| v.representative())) {
+                if v2 != *v { out.stat("representative-not-idempotent(only-counted)"); }
+            }
+        }
+        out.distinct(&("repr", ty.clone(), st.sx()));
+        if c == 0 { out.sample(&req); }
+    }
+    out.stat_n(&format!("state-type {}", if ty.len() > 70 { &ty[..70] } else { &ty }), count as u64);
+}
+
 fn main() {
-    let out = Out::new();
+    quiet_panics();
+    let mut out = Out::new();
+    out.max_samples = 10;
+    let mut r = Rng::new(seed());
+    let k = if thorough() { 20 } else { 1 };
+    // (a) plans + reindex
+    plans::<u8>(&mut out, &mut r, 150 * k);
+    plans::<bool>(&mut out, &mut r, 40 * k);
+    plans::<(u8, u8)>(&mut out, &mut r, 80 * k);
+    plans::<String>(&mut out, &mut r, 80 * k);
+    plans::<Option<u8>>(&mut out, &mut r, 60 * k);
+    plans::<Vec<u8>>(&mut out, &mut r, 80 * k);
+    plans::<(u8, Vec<Id>)>(&mut out, &mut r, 80 * k);
+    plans::<BTreeSet<u8>>(&mut out, &mut r, 60 * k);
+    plans::<BTreeMap<u8, bool>>(&mut out, &mut r, 40 * k);
+    plans::<VecDeque<u8>>(&mut out, &mut r, 40 * k);
+    plans::<Id>(&mut out, &mut r, 60 * k);
+    plans::<Option<(String, u8)>>(&mut out, &mut r, 40 * k);
+    // (a) rewrite over every container type
+    macro_rules! rw { ($n:expr; $($t:ty),* $(,)?) => { $( rewrites::<$t>(&mut out, &mut r, $n * k); )* } }
+    rw!(40; Id, u8, String, bool, (), (Id, Id), (Id, u8), Option<Id>, Vec<Id>, VecDeque<Id>, Vec<(Id, Id)>, Vec<Vec<Id>>,
+        BTreeSet<Id>, BTreeMap<Id, u8>, BTreeMap<Id, Id>, BTreeMap<(Id, Id), VecDeque<Id>>, BTreeMap<u8, Id>, BTreeSet<(Id, u8)>,
+        HashableHashSet<Id>, HashableHashSet<(Id, Id)>, HashableHashMap<Id, u8>, HashableHashMap<Id, Id>, HashableHashMap<u8, Vec<Id>>,
+        HashableHashSet<Vec<Id>>, Envelope<u8>, Envelope<Id>, Envelope<(Id, u8)>, Vec<Envelope<Id>>, Option<Envelope<Id>>,
+        Network<u8>, Network<Id>, Network<(u8, Id)>, Network<Vec<Id>>, Network<Option<Id>>, (Network<Id>, Vec<Id>),
+        Arc2<Id>);
+    dnm_rewrites(&mut out, &mut r, 200 * k);
+    // (b) representative of actor-system states
+    states::<u8, u8, u8, u8, ()>(&mut out, &mut r, 300 * k, true);
+    states::<(u8, Vec<Id>), (Id, u8), u8, Id, Vec<Id>>(&mut out, &mut r, 400 * k, true);
+    states::<Option<Id>, Vec<Id>, String, (u8, Id), BTreeMap<Id, bool>>(&mut out, &mut r, 300 * k, true);
+    states::<BTreeSet<Id>, Option<Id>, (), Id, HashableHashMap<Id, Vec<Id>>>(&mut out, &mut r, 300 * k, true);
+    states::<(bool, Id), Id, (u8, u8), Vec<Id>, Vec<Envelope<Id>>>(&mut out, &mut r, 300 * k, true);
+    states::<Vec<Id>, (Id, Id), u8, u8, (BTreeSet<Id>, VecDeque<Id>)>(&mut out, &mut r, 300 * k, true);
+    // timer values that carry ids: `Timers::rewrite` clones, so those ids are NOT rewritten. The model follows the
+    // code (M only); the orbit oracle is not applied to this stream (see notes/C10.md).
+    states::<u8, u8, Id, u8, ()>(&mut out, &mut r, 100 * k, false);
     out.finish();
+}
+
+/// `Arc<T>` as a rewritten value (newtype so that `U` can be implemented here)
+#[derive(Clone, Debug, Hash, PartialEq)]
+struct Arc2<T>(Arc<T>);
+impl<T: U> U for Arc2<T> {
+    fn ty() -> String { format!("(arc {})", T::ty()) }
+    fn sx(&self) -> String { self.0.sx() }
+    fn gen(r: &mut Rng, d: usize) -> Self { Arc2(Arc::new(T::gen(r, d))) }
+    fn mutate(&self, r: &mut Rng) -> Self { Arc2(Arc::new(self.0.mutate(r))) }
+}
+impl<T: Rewrite<Id>> Rewrite<Id> for Arc2<T> {
+    fn rewrite<S>(&self, plan: &RewritePlan<Id, S>) -> Self { Arc2(self.0.rewrite(plan)) }
 }
